@@ -81,7 +81,7 @@ def parse_harness_output(out):
 
 
 def run_harness(crate_dir, slot, harness, timeout, mem_gb=None, extra=None):
-    tdir = os.path.join(BUILD, crate_tag(crate_dir) + '-t%d' % slot)
+    tdir = os.path.join(BUILD, crate_tag(crate_dir) + '-t%d' % (slot + int(os.environ.get('VERIF_SLOT_BASE', '0') or 0)))
     os.makedirs(BUILD, exist_ok=True)
     logp = os.path.join(BUILD, 'log-%s-%s.txt' % (crate_tag(crate_dir), harness))
     cmd = ['cargo', 'kani', '--target-dir', tdir] + STUB_FLAGS + ['--harness', 'proofs::' + harness, '--exact'] + (extra or [])
